@@ -518,6 +518,14 @@ impl<'tcx> Ctx<'tcx> {
                         if let StatementKind::Assign(b) = &st.kind {
                             let (_, rv) = &**b;
                             let mut ops: Vec<&Operand<'tcx>> = Vec::new();
+                            if let Rvalue::Aggregate(kind, _) = rv {
+                                if let AggregateKind::Adt(adt_did, vi, _, _, _) = &**kind {
+                                    let adt = tcx.adt_def(*adt_did);
+                                    let name = adt.variant(*vi).name.to_string();
+                                    let ap = self.note_adt(*adt_did);
+                                    items.push(J::obj(vec![("agg", J::Str(ap)), ("variant", J::Str(name))]));
+                                }
+                            }
                             match rv {
                                 Rvalue::Use(op, ..) => ops.push(op),
                                 Rvalue::Aggregate(_, os) => ops.extend(os.iter()),
